@@ -115,7 +115,7 @@ def gen_history(rng, spec, roots, refs, opts):
                 names = list(refs[live[c2]].tasks)
                 r = rng.random()
                 if r < opts.get('p_inspect', 0.2):
-                    steps.append({'op': 'inspect', 'chain': c2, 'what': rng.choice(['tasks_df', 'has_data', 'data_path', 'run_info', 'log', 'repr', 'readable', 'deps'])})
+                    steps.append({'op': 'inspect', 'chain': c2, 'what': rng.choice(opts.get('inspect_kinds') or ['tasks_df', 'has_data', 'data_path', 'run_info', 'log', 'repr', 'readable', 'deps'])})
                 elif r < opts.get('p_inspect', 0.2) + opts.get('p_force', 0.0):
                     k = rng.choice([1, 1, 2, 3])
                     targets = rng.sample(names, min(k, len(names)))
@@ -155,6 +155,8 @@ def gen_history(rng, spec, roots, refs, opts):
                     steps.append({'op': 'disarm', 'chain': c2})
                 else:
                     steps.append({'op': 'value', 'chain': c2, 'task': rng.choice(names), 'ri': live[c2], 'twice': rng.random() < 0.1})
+                if opts.get('inspect_after_run') and steps[-1]['op'] in ('value', 'force', 'disarm') and rng.random() < opts['inspect_after_run']:
+                    steps.append({'op': 'inspect', 'chain': rng.choice(list(live)), 'what': rng.choice(opts['inspect_kinds'])})
             steps.append({'op': 'snapshot', 'chain': c, 'light': True, 'ri': ri})
         spawn = rng.random() < opts.get('p_spawn', 0.15)
         sessions.append({'spawn': spawn, 'hashseed': rng.randrange(1, 10 ** 6) if spawn else None, 'steps': steps})
@@ -267,6 +269,7 @@ def evaluate_history(lab, spec, roots, refs, sessions, counters, want):
     model = Model(refs)
     trouble = None
     writers = {}    # location -> {'sid', 'ri'}
+    latest = {}     # (slug, key) -> record of the latest successful run of that location
 
     def add(prop, tag, what):
         if prop in want:
@@ -314,6 +317,8 @@ def evaluate_history(lab, spec, roots, refs, sessions, counters, want):
                             add('C04', 'has_data', f'{here}: has_data of {n} is {d.get("has_data")}, the history implies {exp_has}')
                         if d['forced'] != ob.forced:
                             add('C07', 'forced_flag', f'{here}: is_forced of {n} is {d["forced"]}, expected {ob.forced}')
+                if op == 'inspect' and step['what'] in ('run_info', 'log') and o['ok'] and 'C18' in want:
+                    check_records(step['what'], o, ch, ref, refs, latest, model, add, here, counters)
                 if op == 'inspect' and step['what'] == 'has_data' and o['ok']:
                     for n, hd in o['has_data'].items():
                         ob = ch['objs'][n]
@@ -409,6 +414,12 @@ def evaluate_history(lab, spec, roots, refs, sessions, counters, want):
                     t = ref.tasks[n]
                     if t['rel_path']:
                         writers[t['rel_path']] = {'sid': sid, 'root': roots[ch['ri']], 'task': n}
+                if not ok:
+                    # every run the model saw starting in a failed request is an attempt (a dependant whose argument evaluation
+                    # failed never reaches its run body, but its log was already re-opened)
+                    for (n_, k_, _) in exp_runs:
+                        latest[('attempt', ref.tasks[n_]['slug'], k_)] = f'failed@{sid}:{o["step"]}'
+                note_runs(latest, o['runs'], ref, ch, sid, failed_task=None if ok else armed)
                 continue
             if op == 'force':
                 counters['force_steps'] += 1
@@ -451,6 +462,7 @@ def evaluate_history(lab, spec, roots, refs, sessions, counters, want):
                     if t['rel_path']:
                         writers[t['rel_path']] = {'sid': sid, 'root': roots[ch['ri']], 'task': n}
                 step['_expected_deleted'] = deleted
+                note_runs(latest, o['runs'], ref, ch, sid, failed_task=None)
                 # stored results removed in this step == exactly the forced ones that had data (delete_data), none otherwise
                 locs = {t['rel_path'] for t in ref.tasks.values() if t['rel_path']}
                 removed = set()
@@ -479,3 +491,85 @@ def evaluate_history(lab, spec, roots, refs, sessions, counters, want):
                     counters['replacement_checks'] += 1
                 continue
     return disc, None
+
+
+# ---- C18: run records ---------------------------------------------------------------------------------------------------
+
+def note_runs(latest, records, ref, ch, sid, failed_task):
+    """remember, per location, the latest run that completed (start ... end without a fault in between or downstream abort)"""
+    started = {}
+    for r in records:
+        if r['phase'] == 'start':
+            started[r['uid']] = r
+            latest[('attempt', r['slug'], r['key'])] = r['uid']
+        elif r['phase'] == 'end':
+            started.pop(r['uid'], None)
+            if failed_task is not None and r['task'] in ch['objs'][failed_task[0]].names:
+                continue    # the body of a generator failed after run had returned: not a completed run
+            latest_candidate = dict(r, sid=sid, ri=ch['ri'])
+            latest.setdefault('_pending', []).append(latest_candidate)
+    # a run that ended inside lab_run may still have failed later only through injected save-faults (not used in histories):
+    # every 'end' record of this step is a completed run, unless a dependant's failure... (failures do not undo completed inputs)
+    for c in latest.pop('_pending', []):
+        latest[(c['slug'], c['key'])] = c
+
+
+def check_records(what, o, ch, ref, refs, latest, model, add, here, counters):
+    from .. import refscheme
+    for n, t in ref.tasks.items():
+        lr = latest.get((t['slug'], t['key']))
+        if lr is not None and latest.get(('attempt', t['slug'], t['key'])) != lr['uid']:
+            # a later attempt failed and has not been retried yet. The stored result is still the one of the last successful run and the run
+            # info (written only after a successful save) must still describe that run; what the log holds in this state is not specified.
+            counters['failed_attempt_since_success'] += 1
+            if what == 'log':
+                continue
+        ob = ch['objs'][n]
+        if what == 'run_info':
+            info = o['run_info'].get(n)
+            if lr is None:
+                continue
+            counters['run_infos_checked'] += 1
+            if info is None:
+                add('C18', 'run_info_missing', f'{here}: {n} has run (uid {lr["uid"]}) but has no run info')
+                continue
+            wref = refs[lr['ri']]
+            wt = wref.tasks.get(lr['task']) or next((x for x in wref.tasks.values() if x['slug'] == lr['slug'] and x['key'] == lr['key']), None)
+            exp_log = [{'lab_uid': lr['uid'], 'n': 1}, {'lab_uid': lr['uid'], 'n': 2}]
+            if info.get('log') != exp_log:
+                add('C18', 'run_info_log', f'{here}: run info of {n} holds records {info.get("log")}, the latest run of this location added {exp_log}')
+            tk = info.get('task') or {}
+            if tk.get('name') != t['slug'] or tk.get('class') != t['spec']['cls'] or tk.get('module') != t['spec']['mod_path']:
+                add('C18', 'run_info_task', f'{here}: run info of {n} names task {tk}, expected {t["slug"]}/{t["spec"]["cls"]}/{t["spec"]["mod_path"]}')
+            if wt is not None:
+                gv_active = wref.gv is not None
+                params = info.get('parameters') or {}
+                for pn, v in wt['params'].items():
+                    if pn not in params:
+                        add('C18', 'run_info_params', f'{here}: run info of {n} lacks parameter {pn}')
+                    elif (pn in wt['persisted'] or lr['task'] in wref.tasks) and params[pn] != refscheme.value_repr(v, gv_active):
+                        add('C18', 'run_info_params', f'{here}: run info of {n}: parameter {pn} recorded as {params[pn]!r}, the run used {refscheme.value_repr(v, gv_active)!r}')
+                exp_inputs = {m: wref.tasks[m]['key'] for m in wt['inputs']}
+                got_inputs = info.get('input_tasks')
+                if got_inputs != exp_inputs and sorted((got_inputs or {}).values()) != sorted(exp_inputs.values()):
+                    add('C18', 'run_info_inputs', f'{here}: run info of {n} records input keys {got_inputs}, the run had {exp_inputs}')
+                cfg = info.get('config') or {}
+                shared = sum(1 for x in wref.tasks.values() if x['slug'] == wt['slug'] and x['key'] == wt['key']) > 1
+                if not shared:
+                    if not str(cfg.get('name', '')).startswith(wt['inst']['name'] + '/') or (cfg.get('namespace') or None) != ('::'.join(wt['ns']) or None):
+                        add('C18', 'run_info_config', f'{here}: run info of {n} names config {cfg.get("name")} / namespace {cfg.get("namespace")}, '
+                                                        f'the task came from config {wt["inst"]["name"]} in namespace {"::".join(wt["ns"]) or None}')
+        else:
+            lines = o['log'].get(n)
+            if lr is None:
+                continue
+            counters['logs_checked'] += 1
+            if lines is None:
+                add('C18', 'log_missing', f'{here}: {n} has run (uid {lr["uid"]}) but has no log')
+                continue
+            msgs = [l[l.index('LABMSG'):] for l in lines if 'LABMSG' in l]
+            exp = [f'LABMSG uid={lr["uid"]} n=1 task={lr["task"]}', f'LABMSG uid={lr["uid"]} n=2 task={lr["task"]}']
+            if msgs != exp:
+                add('C18', 'log_content', f'{here}: log of {n} holds {msgs[:6]}{"..." if len(msgs) > 6 else ""}, the latest run of this location logged {exp}')
+            if any('\x00' in l for l in lines):
+                add('C18', 'log_content', f'{here}: log of {n} contains NUL padding')
